@@ -1318,8 +1318,8 @@ func ircGen(c *runCtx, run func([]string)) {
 				if kind == "create" && r.IntN(3) == 0 {
 					ea := genAuth(r, "eacl", owner, nid, epoch, now, []int{0, 0, 1}[r.IntN(3)])
 					tcid := nid
-					if r.IntN(8) == 0 {
-						tcid = 1 + r.IntN(6)
+					if r.IntN(6) == 0 {
+						tcid = r.IntN(7) // another container, or 0: a table that names no container at all
 					}
 					line += fmt.Sprintf(" eacl=1 %s e_tabok=%d e_tcid=%d e_recs=%s e_ext=%d", ea.render("e_"), b2i(flip(10)), tcid, genRecs(r, r.IntN(5) == 0), b2i(flip(6)))
 				} else {
